@@ -283,7 +283,7 @@ class Gen:
                 ops += self.table_probe(tid, 4)
                 ops.append('tsearch %d %s %s' % (tid, hx(n), hx(v)))
                 ops.append('tsearch %d %s %s' % (tid, hx(n), hx(v + b'!')))
-            for m2 in (mx, mx + 1, max(mx - 1, 0), 34, 33, 0, 5000):
+            for m2 in (mx, mx + 1, max(mx - 1, 0), 34, 33, 32, 31, 0, 5000):
                 ops.append('tmax %d %d' % (tid, m2))
                 ops += self.table_probe(tid, 2)
         # all static pairs / names with foreign value / name-only
@@ -1036,6 +1036,18 @@ def dec_extra_catalogue(g):
         ops.append('ddec %d 1 20' % x)
         ops.append('ddec %d 1 %s' % (x, hx(blk)))
         ops.append('ddec %d 1 be' % x)
+    # an entry of the minimum size 32 (empty name, empty value) and a table of exactly 32 / 31 / 33
+    for u in (32, 31, 33):
+        x = new()
+        ops.append('ddec %d 1 400000' % x)
+        ops.append('ddec %d 1 %s' % (x, hx(int_octets(u, 5, 0x20) + b'\xbe')))
+        ops.append('ddec %d 1 be' % x)
+        x = new()
+        ops.append('ddec %d 1 %s' % (x, hx(int_octets(u, 5, 0x20) + b'\x40\x80\x80' + b'\xbe')))
+    # permitted maximum beyond 32 bits and updates in that range
+    x = new(); ops.append('dallow %d %d' % (x, 1 << 40))
+    for u in ((1 << 32) - 1, 1 << 32, (1 << 32) + 5, 1 << 40, (1 << 40) + 1):
+        ops.append('ddec %d 1 %s' % (x, hx(int_octets(u, 5, 0x20))))
     # far-above-limit updates (multi-octet, already above the limit before their last octet)
     x = new()
     for u in (4097, 8192, 16384, 32768, 65536, 1 << 20, 1 << 40):
@@ -1515,4 +1527,36 @@ def call_order_stream(start_id=23000):
             if c.startswith('eenc'):
                 ops.append('pipe %d 1 %d' % (i, i))
         ops.append('eenc %d 0 61:62:0 78:79:0' % i); ops.append('pipe %d 1 %d' % (i, i))
+    return ops
+
+
+
+def huff_alignment_catalogue():
+    """strings whose code has NO padding (total length a multiple of 8) for every code-length class, of every length up
+    to 48 symbols; and pairs of symbols that put a long run of one-bits across a symbol boundary, at every bit offset"""
+    from refmodel import CODES, LENGTHS
+    ops = []
+    by_len = {}
+    for s_ in range(256):
+        by_len.setdefault(LENGTHS[s_], []).append(s_)
+    for L, syms in sorted(by_len.items()):
+        for k in range(1, 49):
+            if (L * k) % 8 == 0 or k in (1, 2, 3, 7, 8, 9, 15, 16, 17):
+                for variant in range(2):
+                    s = bytes(syms[(j * (variant + 1)) % len(syms)] for j in range(k))
+                    ops.append('hrt ' + hx(s))
+                    ops.append('hdec ' + hx(huff_encode(s)))
+                    ops.append('henc ' + hx(s))
+    def lead(c, l):
+        b = format(c, '0%db' % l); return len(b) - len(b.lstrip('1'))
+    def trail(c, l):
+        b = format(c, '0%db' % l); return len(b) - len(b.rstrip('1'))
+    A = sorted(range(256), key=lambda s_: -trail(CODES[s_], LENGTHS[s_]))[:12]
+    B = sorted(range(256), key=lambda s_: -lead(CODES[s_], LENGTHS[s_]))[:12]
+    for a in A:
+        for b in B:
+            for shift in range(8):
+                s = b'0' * shift + bytes([a, b]) + b'0' * (shift % 3)
+                ops.append('hrt ' + hx(s))
+                ops.append('hdec ' + hx(huff_encode(s)))
     return ops
